@@ -7,5 +7,5 @@ CONSTANTS
   GenVars = {"x"}
   SimpleKinds = {"assign", "use", "call", "return"}
   Shape = "any"
-INVARIANT InvC09
+INVARIANT InvAll
 CHECK_DEADLOCK FALSE
